@@ -24,7 +24,33 @@ def gen_case(rng, i):
     inv = [rng.choice([0.0, rng.random() * 0.999, logu(1e-6, 0.5)]) for _ in range(n)] if has_inv else None
     has_mu = rng.random() < 0.5
     mu = [logu(1e-3, 1e3) for _ in range(n)] if has_mu else None
-    return dict(kind=kind, B=B, K=K, shape=shape, inv=inv, mu=mu)
+    case = dict(kind=kind, B=B, K=K, shape=shape, inv=inv, mu=mu)
+    # history: the same object is evaluated, one of its parameters is assigned, and it is evaluated again
+    hist = []
+    names = [k for k in (("shape",) if kind == "weibull" else ()) + ("inv", "mu") if case.get(k) is not None]
+    if names and rng.random() < 0.6:
+        for _ in range(rng.randint(1, 3)):
+            w = rng.choice(names)
+            if w == "shape":
+                v = [logu(1e-2, 1e2) for _ in range(n)]
+            elif w == "inv":
+                v = [rng.choice([0.0, rng.random() * 0.999, logu(1e-6, 0.5)]) for _ in range(n)]
+            else:
+                v = [logu(1e-3, 1e3) for _ in range(n)]
+            hist.append([w, v])
+    case["hist"] = hist
+    return case
+
+
+def stages_of(case):
+    """the configurations the object goes through: initial, then after each assignment"""
+    cur = {k: v for k, v in case.items() if k != "hist"}
+    out = [dict(cur)]
+    for w, v in case.get("hist", []):
+        cur = dict(cur)
+        cur[w] = v
+        out.append(cur)
+    return out
 
 
 def run_impl(case):
@@ -52,8 +78,6 @@ def run_impl(case):
     if case["mu"] is not None:
         d["mu"] = P("mu", case["mu"])
     m = cls.from_json(d, dic)
-    rates = m.rates()
-    probs = m.probabilities()
     n = B or 1
     def rows(t):
         t = t.detach()
@@ -63,7 +87,14 @@ def run_impl(case):
         if t.dim() == 1:
             t = t.unsqueeze(0).expand(n, -1)
         return [[float(x) for x in row] for row in t]
-    return rows(rates), rows(probs)
+    out = [(rows(m.rates()), rows(m.probabilities()))]
+    ids = dict(shape="shape", inv="inv", mu="mu")
+    for w, v in case.get("hist", []):
+        par = dic[ids[w]]
+        new = torch.tensor([[x] for x in v] if B is not None else [v[0]], dtype=par.tensor.dtype)
+        par.tensor = new
+        out.append((rows(m.rates()), rows(m.probabilities())))
+    return out
 
 
 def coq_case(case, row):
@@ -105,6 +136,8 @@ def close(x, iv, rtol=1e-9):
     if iv is None:
         return None
     lo, hi = iv
+    if not math.isfinite(x):
+        return False
     fx = Fraction(x)
     tol = Fraction(rtol) * max(abs(lo), abs(hi)) + Fraction(1, 10**300)
     return lo - tol <= fx <= hi + tol
@@ -137,10 +170,15 @@ def run(tier, seed, replay=None):
         for c, o in zip(cases, outs):
             if isinstance(o, Exception):
                 return (f"C05:raises:{c['kind']}", f"{type(o).__name__}: {o}", dict(case=c))
-            bad = property_on_impl(c, *o)
-            if bad:
-                return (f"C05:{c['kind']}:inv={c['inv'] is not None}:mu={c['mu'] is not None}:B={c['B'] is not None}",
-                        bad, dict(case=c, rates=o[0], probs=o[1]))
+            for k, (st, (rates, probs)) in enumerate(zip(stages_of(c), o)):
+                bad = property_on_impl(st, rates, probs)
+                if bad:
+                    when = "fresh" if k == 0 else "after-update"
+                    return (f"C05:{c['kind']}:inv={c['inv'] is not None}:mu={c['mu'] is not None}:"
+                            f"B={c['B'] is not None}:{when}",
+                            bad + (f" [evaluation {k} of the same object, after assigning "
+                                   f"{[h[0] for h in c['hist'][:k]]}]" if k else ""),
+                            dict(case=c, stage=k, rates=rates, probs=probs))
         return None
 
     C.handle_proof(rep, PID, search)
@@ -153,20 +191,21 @@ def run(tier, seed, replay=None):
     for ci, (c, o) in enumerate(zip(cases, outs)):
         if isinstance(o, Exception):
             continue
-        for r in range(c["B"] or 1):
-            exprs.append(coq_case(c, r))
-            index.append((ci, r))
+        for k, st in enumerate(stages_of(c)):
+            for r in range(c["B"] or 1):
+                exprs.append(coq_case(st, r))
+                index.append((ci, r, k))
     res = C.run_cases(PID, HEADER, exprs, shard=max(10, len(exprs) // 16 + 1))
     rep.timings["model_eval"] = round(time.time() - t0, 2)
     undefined = 0
     dist = {}
-    for (ci, r), flat in zip(index, res):
-        c, (rates, probs) = cases[ci], outs[ci]
+    for (ci, r, k), flat in zip(index, res):
+        c, (rates, probs) = cases[ci], outs[ci][k]
         vals = rates[r] + probs[r]
         ivs = [C.ival_to_fracs(flat[k:k + 6]) for k in range(0, len(flat), 6)]
         dist[c["kind"]] = dist.get(c["kind"], 0) + 1
-        rep.case(dict(c=c, r=r), nontrivial=c["kind"] != "constant",
-                 sample=dict(case=c, impl_rates=rates[r], impl_probs=probs[r]))
+        rep.case(dict(c=c, r=r, k=k), nontrivial=c["kind"] != "constant",
+                 sample=dict(case=c, evaluation=k, impl_rates=rates[r], impl_probs=probs[r]))
         if len(ivs) != len(vals):
             bad = f"model has {len(ivs)} outputs, implementation {len(vals)}"
         else:
@@ -183,8 +222,8 @@ def run(tier, seed, replay=None):
             if f:
                 rep.violation(*f)
             else:
-                rep.violation(f"C05:model-impl-differ:{c['kind']}", f"{bad} on {c}",
-                              dict(case=c, row=r, broken="correspondence M_site vs site_model.py"), False)
+                rep.violation(f"C05:model-impl-differ:{c['kind']}", f"{bad} on {c} (evaluation {k})",
+                              dict(case=c, row=r, stage=k, broken="correspondence M_site vs site_model.py"), False)
     rep.rule = ("random site-model configurations: kind in {Weibull(K=1..16) [+invariant] [*mu], Invariant, "
                 "Constant}, shape log-uniform 1e-2..1e2, invariant in [0,1) incl. 0, batch [] or [B<=3]; "
                 "non-trivial = not the constant model; distinct = distinct (configuration,row)")
